@@ -286,7 +286,7 @@ def model_check(v: Verdict, tier: str) -> None:
         v.violation(f"TLC: property {res.violated} violated in Router model ({cfg})",
                     {"kind": "tlc", "cfg": cfg, "tail": res.stdout[-4000:]})
     # anti-vacuity: the unrepaired delivery test must violate FanOut, and the probes must be reachable
-    a = tlc.require_ok(tlc.run_tlc("MC_Router", "MC_Router_asis.cfg", timeout=600), "Router as-is self-test")
+    a = tlc.require_ok(tlc.run_tlc("MC_Router", "MC_Router_asis.cfg", timeout=2400), "Router as-is self-test")
     v.notes["asis_selftest"] = {"AsIs=TRUE violates": a.violated}
     if a.violated != "P_FanOut":
         raise tlc.MachineryError(f"self-test: model with AsIs=TRUE should violate P_FanOut, got {a.violated}")
